@@ -5,7 +5,10 @@ Implementation driven (real code from <repo>/src/highdicom/volume.py, spatial.py
   permute_spatial_axes, swap_spatial_axes, pad (four width forms, six modes, per_channel),
   pad_to_spatial_shape, crop_to_spatial_shape, pad_or_crop_to_spatial_shape,
   to_patient_orientation, ensure_handedness, copy, with_array, get_channel,
-  permute_channel_axes, get_closest_patient_orientation, handedness.
+  permute_channel_axes, squeeze_channel, random_flip_spatial, random_permute_spatial_axes,
+  random_spatial_crop (np.random seeded per call; the model receives the drawn values),
+  index tuples with more than three items (refused, D92), get_closest_patient_orientation,
+  handedness.
 Model: coq/theories/C08_Model.v; theorems: C08_Props.v.
 
 A case is a random history (1..8 operations) applied to a real hd.Volume and, in lock
@@ -40,23 +43,27 @@ ORACLE_PREMISES = [
     'rational model; exact on the dyadic/integer affines that most cases use',
     'numpy basic slicing, np.transpose and np.pad(constant/edge) are modelled by their index maps '
     '(Base/PySlice.v for slices); np.argsort of 3 elements is stable',
+    'random_* methods: the values np.random draws (randint / permutation after np.random.seed) are inputs of '
+    'the model, predicted by the harness with the same seed',
 ]
 MODELLED = ('volume.py: _prepare_getitem_index, _prepare_pad_width, _permute_affine, flip_spatial, '
             'swap_spatial_axes, pad_to/crop_to/pad_or_crop_to_spatial_shape, to_patient_orientation, '
             'handedness, ensure_handedness, VolumeGeometry.__getitem__/pad/permute_spatial_axes/copy/with_array, '
-            'Volume.__getitem__/pad/permute_spatial_axes/copy/with_array/get_channel/permute_channel_axes; '
+            'Volume.__getitem__/pad/permute_spatial_axes/copy/with_array/get_channel/permute_channel_axes/'
+            'squeeze_channel; random_flip_spatial, random_permute_spatial_axes, random_spatial_crop (given the draws); '
             'spatial.py: _transform_affine_matrix(permute_indices), _translate_affine_matrix, '
             'get_closest_patient_orientation, _normalize_patient_orientation')
 STRATA = ['history', 'history_malformed', 'single', 'closest', 'geom_with_array']
 RULE = ('history: 1..8 random operations from the full alphabet on volumes with shape <= 5 per axis, 0-2 '
         'channel dimensions, directions = 48 signed axis permutations, rational rotations (3-4-5, 5-12-13, '
         '1-2-2), integer scaled-orthogonal matrices incl. 45-degree ties, both handednesses, dyadic spacings; '
-        'history_malformed: the same with every guard violated somewhere; single: one boundary operation per '
+        'history_malformed: the same with every guard violated somewhere (incl. index tuples of 4-5 items, bad '
+        'random_* axes, squeeze of missing / non-singleton / duplicate channels); single: one boundary operation per '
         'case (every slice start/stop/step around the bounds on a length-1..4 axis, all pad width forms x modes); '
         'closest: get_closest_patient_orientation/handedness of random affines; non-trivial = at least one '
         'accepted operation that changes shape, affine or array order; distinct by case hash')
-NOT_EXECUTED = ['index tuples with more than three items', 'non-int index items (numpy integers, lists)',
-                'random_* methods (np.random), match_geometry (C09)']
+NOT_EXECUTED = ['non-int index items (numpy integers, lists)', 'match_geometry (C09)',
+                'normalize_mean_std / normalize_min_max / clip / astype (value operations, not spatial)']
 EXHAUSTIVE = {'quick': False, 'thorough': False}
 
 LETTERS = 'LRPAHF'
@@ -81,6 +88,9 @@ def _descs():
 
 
 NDESC = 5
+# squeeze_channel([subset of the channels]) is refused by the current code (reported); drawn as
+# a valid operation only when True
+SQUEEZE_SUBSETS = False
 
 
 def _chan_dict(chans):
@@ -256,8 +266,23 @@ def _apply(obj, op, is_geom=False):
         return obj.ensure_handedness(op[1], **kw)
     if k == 'copy':
         return obj.copy()
+    if k == 'rand_flip':
+        np.random.seed(op[2])
+        return obj.random_flip_spatial(op[1])
+    if k == 'rand_permute':
+        np.random.seed(op[2])
+        return obj.random_permute_spatial_axes(op[1])
+    if k == 'rand_crop':
+        np.random.seed(op[2])
+        return obj.random_spatial_crop(op[1])
     if is_geom:
         return None
+    if k == 'squeeze':
+        D = _descs()
+        # custom descriptors must be passed as objects: squeeze_channel builds ChannelDescriptor(iden)
+        # instead of resolving keywords against the volume's own channels (unlike get_channel)
+        return obj.squeeze_channel(None if op[1] is None else
+                                   [D[d][0] if (i % 2 or d >= 3) else D[d][1] for i, d in enumerate(op[1])])
     if k == 'with_array':
         arr = np.array(op[2], dtype=np.int64 if op[3] == 'int' else np.float64).reshape(op[1])
         return obj.with_array(arr, channels=None if op[4] is None else _chan_dict(op[4]))
@@ -394,7 +419,7 @@ def _coq_orient(o):
     return zl([LETTERS.index(x) if x in LETTERS else 9 for x in o])
 
 
-def _coq_op(op):
+def _coq_op(op, shape=None):
     k = op[0]
     if k == 'get':
         return f'Sp (OGet {_coq_index(op[1])})'
@@ -420,6 +445,13 @@ def _coq_op(op):
         return f'Sp (OHanded {h} {_oz(op[2])} {sw})'
     if k == 'copy':
         return 'Copy'
+    if k in ('rand_flip', 'rand_permute', 'rand_crop'):
+        dr = zl(_rand_draws(op, shape))
+        return {'rand_flip': f'Sp (ORand (RFlip {zl(op[1])} {dr}))',
+                'rand_permute': f'Sp (ORand (RPermute {zl(op[1])} {dr}))',
+                'rand_crop': f'Sp (ORand (RCrop {zl(op[1])} {dr}))'}[k]
+    if k == 'squeeze':
+        return 'SqueezeChannel ' + ('None' if op[1] is None else f'(Some {zl(op[1])})')
     if k == 'with_array':
         return _coq_with_array(op)
     if k == 'get_channel':
@@ -453,8 +485,44 @@ def coq_term(c):
     if k == 'geom_with_array':
         op = c['ops'][0]
         return f"(run_geom_with_array {_coq_vol(c)} ({_coq_with_array(op)}))"
-    ops = '[' + '; '.join(_coq_op(op) for op in c['ops']) + ']'
+    shapes = _shapes_along(c) if any(op[0] == 'rand_crop' for op in c['ops']) else [None] * len(c['ops'])
+    ops = '[' + '; '.join(_coq_op(op, sh) for op, sh in zip(c['ops'], shapes)) + ']'
     return f'(run_hist {_coq_vol(c)} {ops})'
+
+
+# --------------------------------------------------------------------------- np.random draws
+def _rand_axes_ok(axes):
+    return 2 <= len(axes) <= 3 and len(set(axes)) == len(axes) and set(axes) <= {0, 1, 2}
+
+
+def _rand_draws(op, shape):
+    """What np.random hands to the random_* method after np.random.seed(op[2]) (harness-side
+    prediction; the model takes these values as inputs)."""
+    import numpy as np
+    k, arg, seed = op[0], op[1], op[2]
+    np.random.seed(seed)
+    if k == 'rand_flip':
+        return [int(np.random.randint(2)) for d in range(3) if d in arg] if _rand_axes_ok(arg) else []
+    if k == 'rand_permute':
+        return [int(x) for x in np.random.permutation(arg).tolist()] if _rand_axes_ok(arg) else []
+    out = []
+    for c_, d_ in zip(arg, shape):
+        if d_ - c_ < 0:
+            break
+        out.append(int(np.random.randint(0, d_ - c_ + 1)))
+    return out
+
+
+def _shapes_along(c):
+    """Spatial shape of the receiver before every operation (real code, as _track)."""
+    v = _mk_volume(c)
+    out = []
+    for op in c['ops']:
+        out.append([int(x) for x in v.spatial_shape])
+        r = catch(_apply, v, op)
+        if not isinstance(r, Err):
+            v = r
+    return out
 
 
 # --------------------------------------------------------------------------- generators
@@ -507,7 +575,7 @@ def _valid_op(rng, shape, chans, cs, budget_ok):
     n = shape
     k = rng.choice(['get', 'get', 'get', 'flip', 'permute', 'swap', 'pad', 'pad', 'pad_to', 'crop_to',
                     'pad_or_crop', 'orient', 'handed', 'copy', 'with_array', 'get_channel',
-                    'permute_channels'])
+                    'permute_channels', 'squeeze', 'rand_flip', 'rand_permute', 'rand_crop'])
     if k == 'get':
         form = rng.random()
         if form < 0.12:
@@ -571,6 +639,25 @@ def _valid_op(rng, shape, chans, cs, budget_ok):
         ds = [d for d, _ in chans]
         rng.shuffle(ds)
         return ['permute_channels', ds]
+    if k == 'squeeze':
+        single = [d for d, v in chans if len(v) == 1]
+        if rng.random() < 0.4:
+            return ['squeeze', None]
+        if SQUEEZE_SUBSETS and single:
+            return ['squeeze', rng.sample(single, rng.randint(0, len(single)))]
+        if len(single) == len(chans):
+            rng.shuffle(single)
+            return ['squeeze', single]
+        return ['squeeze', None]
+    if k == 'rand_flip':
+        return ['rand_flip', rng.choice([[0, 1, 2], rng.sample(range(3), 2), rng.sample(range(3), 3)]),
+                rng.randrange(10**6)]
+    if k == 'rand_permute':
+        return ['rand_permute', rng.choice([[0, 1, 2], rng.sample(range(3), 2), rng.sample(range(3), 3)]),
+                rng.randrange(10**6)]
+    if k == 'rand_crop':
+        return ['rand_crop', [rng.randint(1, x) for x in n][:rng.choice([3, 3, 3, 2])] +
+                ([1] if rng.random() < 0.1 else []), rng.randrange(10**6)]
     raise ValueError(k)
 
 
@@ -590,6 +677,16 @@ def _malformed_op(rng, shape, chans, cs):
         (at({'s': [0, nd, -1]}), 'err'), (at({'s': [nd - 1, 0, 1]}) if nd > 1 else at({'s': [0, 0, 1]}), 'err'),
         (at({'s': [None, -nd - 1, None]}), 'err'), (at({'s': [None, -nd, 1]}), 'err'),
         (['get', nd if d == 0 else n[0]], 'err'), (['get', {'s': [n[0], None, None]}], 'err'),
+        # more than three index items: nothing may reach the channel axes (D92)
+        (['get', [{'s': [None, None, None]}] * 3 + [{'s': [None, None, rng.choice([-1, None, 2, 0])]}]], 'err'),
+        (['get', [{'s': [None, None, None]}] * rng.choice([4, 5])], 'err'),
+        (['get', [0, {'s': [None, None, None]}, -1, 0]], 'err'),
+        (['get', [nd, {'s': [0, 0, None]}, {'s': [None, None, 0]}, {'s': [0, 1, None]}]], 'err'),
+        (['rand_flip', rng.choice([[0], [1, 1], [0, 3], [-1, 1], [0, 1, 2, 0], []]), 7], 'err'),
+        (['rand_permute', rng.choice([[2], [2, 2], [1, 3], [-1, 0, 1], [0, 1, 2, 1], []]), 7], 'err'),
+        (['rand_crop', [n[0] + 1, n[1], n[2]], 3], 'err'), (['rand_crop', [n[0], n[1], n[2] + 2], 3], 'err'),
+        (['rand_crop', [n[0], 0, n[2]], 3], 'err'), (['rand_crop', [1, n[1] + 1], 3], 'err'),
+        (['squeeze', [[x for x in range(NDESC) if x not in [c[0] for c in chans]][0]]], 'err'),
         (['flip', 3], 'err'), (['flip', -1], 'err'), (['flip', [0, 1, 2, 0]], 'err'), (['flip', [0, 5]], 'err'),
         (['permute', [0, 1]], 'err'), (['permute', [0, 0, 1]], 'err'), (['permute', [0, 1, 3]], 'err'),
         (['permute', [0, 1, 2, 0]], 'err'), (['permute', [-1, 0, 1]], 'err'), (['permute', []], 'err'),
@@ -642,6 +739,13 @@ def _malformed_op(rng, shape, chans, cs):
     if cs != 'PATIENT':
         cands.append((['orient', 'LPH'], 'err'))
     if chans:
+        nons = [d_ for d_, v_ in chans if len(v_) > 1]
+        sing = [d_ for d_, v_ in chans if len(v_) == 1]
+        if nons:
+            cands.append((['squeeze', [nons[0]]], 'err'))
+            cands.append((['squeeze', [c_[0] for c_ in chans]], 'err'))
+        if sing:
+            cands.append((['squeeze', [sing[0], sing[0]]], 'err'))
         d0, v0 = chans[0]
         missing = [x for x in (range(3) if d0 == 3 else range(1, 10)) if x not in v0]
         if missing:
@@ -840,8 +944,19 @@ def _ref_ids(op, ps, orient_ok=True):
                 sl.append(slice((i - o) // 2, (i - o) // 2 + o))
                 w.append([0, 0])
         return np.pad(ids[tuple(sl)], w, mode='constant', constant_values=-1)
-    if k in ('copy', 'with_array', 'get_channel', 'permute_channels'):
+    if k in ('copy', 'with_array', 'get_channel', 'permute_channels', 'squeeze'):
         return ids
+    if k in ('rand_flip', 'rand_permute', 'rand_crop'):
+        dr = _rand_draws(op, ps)             # numpy's own draws for this seed
+        if k == 'rand_flip':
+            ax = tuple(d for d, x in zip(sorted(set(op[1])), dr) if x == 1)
+            return np.flip(ids, axis=ax) if ax else ids
+        if k == 'rand_permute':
+            if len(dr) == 2:
+                m = 3 - sum(dr)
+                dr = dr[:m] + [m] + dr[m:]
+            return np.transpose(ids, dr)
+        return ids[tuple(slice(st, st + c_) for st, c_ in zip(dr, op[1]))]
     return None
 
 
@@ -901,7 +1016,7 @@ def _check_step(op, prev, new, prev_dtype_int, expect):
         if sorted(loc.ravel().tolist()) != list(range(ps[0] * ps[1] * ps[2])):
             return f'{k}: result is not a rearrangement of the previous voxels in physical space', None
     # channels
-    if k in ('get_channel', 'permute_channels', 'with_array'):
+    if k in ('get_channel', 'permute_channels', 'with_array', 'squeeze'):
         if list(ns) != list(ps) or [F(x) for x in na] != [F(x) for x in pa]:
             return f'{k}: geometry changed', None
         if k == 'with_array':
@@ -919,6 +1034,11 @@ def _check_step(op, prev, new, prev_dtype_int, expect):
             want_ch = [x for x in want_ch if x is not None]
             if nch != want_ch or not np.array_equal(parr[tuple(indexer)], narr):
                 return 'get_channel: wrong channel table or values', None
+        elif k == 'squeeze':
+            gone = [i for i, (d, v) in enumerate(pch) if len(v) == 1 and (op[1] is None or d in op[1])]
+            if nch != [x for i, x in enumerate(pch) if i not in gone] or not np.array_equal(
+                    parr.reshape(narr.shape), narr):
+                return 'squeeze_channel: wrong channel table or values', None
         else:
             perm = [[c[0] for c in pch].index(d) for d in op[1]]
             if nch != [pch[i] for i in perm] or not np.array_equal(
@@ -1019,6 +1139,13 @@ def oracle(c, out):
         if o == 'RECEIVER-MUTATED':
             return f'step {n} {op[0]}: the receiver was modified'
         ov, og = o
+        if op[0] == 'get' and isinstance(op[1], list) and len(op[1]) > 3:
+            if not (isinstance(ov, Err) and ov.kind == 'IndexError' and isinstance(og, Err)
+                    and og.kind == 'IndexError'):
+                return (f'step {n}: an index with {len(op[1])} items must be refused with IndexError by volume '
+                        f'and geometry (got {ov if isinstance(ov, Err) else "accepted"} / '
+                        f'{og if isinstance(og, Err) else "accepted"})')
+            continue
         if isinstance(ov, Err):
             if exp == 'ok':
                 return f'step {n} {op}: a valid operation was refused with {ov.kind}'
@@ -1041,7 +1168,7 @@ def oracle(c, out):
         # composed map and dtype bookkeeping
         flat = comp.ravel()
         comp = np.where(loc >= 0, flat[np.clip(loc, 0, None)], -1)
-        if op[0] in ('with_array', 'get_channel', 'permute_channels'):
+        if op[0] in ('with_array', 'get_channel', 'permute_channels', 'squeeze'):
             values_comparable = values_comparable and op[0] != 'with_array'
             if op[0] == 'with_array':
                 dtype_int = op[3] == 'int'
@@ -1093,7 +1220,7 @@ def shrink(c):
         import numpy as np
         arr = np.array(c['data']).reshape(c['shape'] + [len(v) for _, v in c['chans']])
         sub = arr[(slice(None),) * 3 + (0,) * len(c['chans'])]
-        ops = [op for op in c['ops'] if op[0] not in ('get_channel', 'permute_channels', 'with_array')]
+        ops = [op for op in c['ops'] if op[0] not in ('get_channel', 'permute_channels', 'with_array', 'squeeze')]
         if ops:
             yield dict(c, chans=[], data=[int(x) for x in sub.ravel()], ops=ops, expect=[None] * len(ops))
     if c['affine'] != [str(x) for x in [1, 0, 0, 0, 1, 0, 0, 0, 1, 0, 0, 0]]:
